@@ -36,6 +36,7 @@ structure ConsOK (c : Cfg) (t : PThread) : Prop where
   ended : ∀ r, t.iterOutcome = some r → r = .stop c.sh.returned ∧ c.sh.exhausted = true
   phase : (t.cpc = .stopping ∨ t.cpc = .shutdown ∨ t.cpc = .fin) → t.iterOutcome.isSome = true
   noStop : t.iterOutcome = none → c.sh.stopRequested = false
+  live : (t.cpc = .boot ∨ t.cpc = .submit ∨ t.cpc = .iter) → t.iterOutcome = none
 
 structure Clean (F : Nat → Option (List Nat)) (inputs0 : List (List Item)) (c : Cfg) : Prop where
   prod : ∀ t ∈ c.ths, t.isProd = true → ProdOK F c t
@@ -166,7 +167,7 @@ theorem consOK_mono {c c' : Cfg} {t0 : PThread} (h : ConsOK c t0) (hr : c'.sh.re
   ⟨fun k hk => he (h.naErr k hk),
    fun hp => (h.armed hp).imp id (fun ⟨a, b⟩ => ⟨by rw [hr]; exact a, he b⟩), h.raise,
    fun r hr' => ⟨by rw [hr]; exact (h.ended r hr').1, he (h.ended r hr').2⟩, h.phase,
-   fun hn => by rw [hs]; exact h.noStop hn⟩
+   fun hn => by rw [hs]; exact h.noStop hn, h.live⟩
 
 theorem nf_tid0 {c : Cfg} (hs : Static c) {tid : Tid} {t : PThread} (ht : c.ths[tid]? = some t)
     (hp : t.isProd = false) : tid = 0 := by
@@ -209,6 +210,32 @@ theorem cons_all {inputs0 : List (List Item)} {c c' : Cfg} {tid : Tid} {t t' : P
   · rw [List.getElem?_set_ne h] at h0
     exact hother h t0 h0
 
+/-- the general reconstruction of `Clean` after a step of thread `tid` that leaves the enqueue
+bookkeeping, `returned` and `produced` alone -/
+theorem clean_gen' {inputs0 : List (List Item)} {c c' : Cfg} {tid : Tid} {t t' : PThread}
+    (hc : Clean F inputs0 c) (ht : c.ths[tid]? = some t) (hths : c'.ths = c.ths.set tid t')
+    (hinA : ∀ sid, inputAt c sid = [] → inputAt c' sid = [])
+    (hitems : inputs0.flatten.Perm ((c'.ths.map itemsOf).flatten ++ c'.inputs.flatten))
+    (hmax : c'.sh.maxEnq = c.sh.maxEnq) (hstart : c'.sh.start = c.sh.start) (hstop : c'.sh.stop = c.sh.stop)
+    (hret : c'.sh.returned = c.sh.returned) (hprod : c'.sh.produced = c.sh.produced)
+    (hexhF : c'.sh.exhausted = true → AllStopped c' ∧ c'.sh.q = []) (hlost : c'.sh.lost = [])
+    (hip : t'.isProd = t.isProd) (h2 : t.isProd = true → pastStart t'.q.pc = pastStart t.q.pc)
+    (h3 : t.isProd = true → pastStop t'.q.pc = pastStop t.q.pc) (h4 : t.isProd = true → retOf t' = retOf t)
+    (h5 : t'.emitted = t.emitted)
+    (hp : t'.isProd = true → ProdOK F c' t')
+    (hother : tid ≠ 0 → ∀ t0, c.ths[0]? = some t0 → ConsOK c' t0)
+    (hco : tid = 0 → ConsOK c' t') : Clean F inputs0 c' := by
+  refine ⟨prod_all hc hths hinA hp, ?_, ?_, ?_, ?_, ?_, hitems, hexhF, hlost, ?_⟩
+  · rw [hmax, hths, sum_same indProd ht (by simp [indProd, hip])]; exact hc.maxEnq
+  · rw [hstart, hths, sum_same indStart ht (by cases hb : t.isProd <;> simp [indStart, hip, hb, h2])]
+    exact hc.start
+  · rw [hstop, hths, sum_same indStop ht (by cases hb : t.isProd <;> simp [indStop, hip, hb, h3])]
+    exact hc.stop
+  · rw [hret, hths, flat_same retL ht (by cases hb : t.isProd <;> simp [retL, hip, hb, h3, h4])]
+    exact hc.rets
+  · rw [hprod, hths, flat_same (·.emitted) ht h5]; exact hc.emitted
+  · exact cons_all hc ht hths hother hco
+
 /-- a step that changes, of what `Clean` tracks, only thread-local facts and the inputs -/
 theorem clean_gen {inputs0 : List (List Item)} {c c' : Cfg} {tid : Tid} {t t' : PThread}
     (hc : Clean F inputs0 c) (ht : c.ths[tid]? = some t) (hths : c'.ths = c.ths.set tid t')
@@ -223,23 +250,14 @@ theorem clean_gen {inputs0 : List (List Item)} {c c' : Cfg} {tid : Tid} {t t' : 
     (h5 : t'.emitted = t.emitted)
     (hp : t'.isProd = true → ProdOK F c' t') (hco : tid = 0 → ConsOK c' t') : Clean F inputs0 c' := by
   have hmem : t ∈ c.ths := List.mem_of_getElem? ht
-  refine ⟨prod_all hc hths hinA hp, ?_, ?_, ?_, ?_, ?_, hitems, ?_, ?_, ?_⟩
-  · rw [hmax, hths, sum_same indProd ht (by simp [indProd, hip])]; exact hc.maxEnq
-  · rw [hstart, hths, sum_same indStart ht (by cases hb : t.isProd <;> simp [indStart, hip, hb, h2])]
-    exact hc.start
-  · rw [hstop, hths, sum_same indStop ht (by cases hb : t.isProd <;> simp [indStop, hip, hb, h3])]
-    exact hc.stop
-  · rw [hret, hths, flat_same retL ht (by cases hb : t.isProd <;> simp [retL, hip, hb, h3, h4])]
-    exact hc.rets
-  · rw [hprod, hths, flat_same (·.emitted) ht h5]; exact hc.emitted
-  · intro he
-    rw [hexh] at he
-    obtain ⟨ha, hq0⟩ := hc.exh he
-    refine ⟨allStopped_set ha hths (fun hp' => ?_), by rw [hq]; exact hq0⟩
-    rw [h3 (by rw [← hip]; exact hp')]; exact ha t hmem (by rw [← hip]; exact hp')
-  · rw [hlost]; exact hc.lost
-  · exact cons_all hc ht hths
-      (fun _ t0 h0 => consOK_mono (hc.cons t0 h0) hret (by rw [hexh]; exact id) hsr) hco
+  refine clean_gen' hc ht hths hinA hitems hmax hstart hstop hret hprod ?_ (by rw [hlost]; exact hc.lost)
+    hip h2 h3 h4 h5 hp
+    (fun _ t0 h0 => consOK_mono (hc.cons t0 h0) hret (by rw [hexh]; exact id) hsr) hco
+  intro he
+  rw [hexh] at he
+  obtain ⟨ha, hq0⟩ := hc.exh he
+  refine ⟨allStopped_set ha hths (fun hp' => ?_), by rw [hq]; exact hq0⟩
+  rw [h3 (by rw [← hip]; exact hp')]; exact ha t hmem (by rw [← hip]; exact hp')
 
 /-- a step that changes nothing of what `Clean` tracks, except thread-local facts -/
 theorem clean_same {inputs0 : List (List Item)} {c c' : Cfg} {tid : Tid} {t t' : PThread}
